@@ -215,6 +215,125 @@ Lemma split_storepack_breaks :
 Proof. vm_compute. repeat split; lia. Qed.
 
 
+(* ---------- refinement: the in-memory indexes and their life cycle ---------- *)
+Lemma cnt_flat_cons h x t : cnt h (flat (x :: t)) = cnt h (snd x) + cnt h (flat t).
+Proof. unfold flat. cbn [map concat]. apply cnt_app. Qed.
+
+Lemma cnt_store_into h bs m : cnt h (flat (store_into m bs)) = cnt h bs + cnt h (flat m).
+Proof.
+  induction m as [|x t IH]; cbn [store_into].
+  - rewrite cnt_flat_cons. cbn [snd]. unfold flat. cbn [map concat]. rewrite !cnt_nil. lia.
+  - destruct (is_open x); rewrite !cnt_flat_cons; cbn [snd]; [rewrite cnt_app; lia | rewrite IH; lia].
+Qed.
+
+Lemma flat_set_state k a b : forall m, flat (set_state_at k a b m) = flat m.
+Proof.
+  induction k as [|k IH]; intros [|x t]; cbn [set_state_at]; try reflexivity.
+  - unfold flat. cbn [map concat]. destruct (fst x), a; reflexivity.
+  - unfold flat in *. cbn [map concat]. rewrite IH. reflexivity.
+Qed.
+
+Lemma cnt_flat_filter h p t :
+  cnt h (flat (filter p t)) + cnt h (flat (filter (fun x => negb (p x)) t)) = cnt h (flat t).
+Proof.
+  induction t as [|x t IH]; cbn [filter]; [reflexivity|].
+  destruct (p x); cbn [negb]; rewrite !cnt_flat_cons; lia.
+Qed.
+
+Lemma cnt_merge_final h m : cnt h (flat (merge_final m)) = cnt h (flat m).
+Proof.
+  destruct m as [|x0 t]; [reflexivity|]. unfold merge_final.
+  rewrite !cnt_flat_cons. cbn [snd]. rewrite cnt_app.
+  pose proof (cnt_flat_filter h is_saved t). lia.
+Qed.
+
+Lemma mem_of_cnt h a b : cnt h a = cnt h b -> mem h a = mem h b.
+Proof.
+  intros E. destruct (mem h b) eqn:M.
+  - apply mem_cnt. apply mem_cnt in M. lia.
+  - apply mem_cnt_false. apply mem_cnt_false in M. lia.
+Qed.
+
+(* the abstract multiset [idx] is the content of all in-memory indexes, whatever their state *)
+Definition Rinv (sm : state * mindex) : Prop := forall h, cnt h (idx (fst sm)) = cnt h (flat (snd sm)).
+
+Lemma Rinv_init idx0 : Rinv (rinit idx0).
+Proof. intros h. unfold rinit, flat. cbn. rewrite app_nil_r. reflexivity. Qed.
+
+Lemma Rinv_step sm e : Rinv sm -> Rinv (rstep sm e).
+Proof.
+  destruct sm as [s m]. intros H h. specialize (H h). cbn [fst snd] in H.
+  destruct e as [e | k | k | ]; cbn [rstep].
+  - destruct e as [h' dup | h' | h' | bs | ].
+    + cbn [fst snd step]. destruct (known s h'); exact H.
+    + cbn [fst snd step]. destruct (mem h' (tick s)); exact H.
+    + cbn [fst snd step]. destruct (mem h' (dupq s)); exact H.
+    + destruct (take_all bs (packer s)) as [p'|] eqn:T; cbn [fst snd]; [|exact H].
+      cbn [step]. rewrite T. cbn [idx]. rewrite cnt_app, cnt_store_into, H. reflexivity.
+    + cbn [fst snd step idx]. exact H.
+  - cbn [fst snd]. unfold finalize_at. rewrite flat_set_state. exact H.
+  - cbn [fst snd]. unfold saved_at. rewrite flat_set_state. exact H.
+  - cbn [fst snd]. rewrite cnt_merge_final. exact H.
+Qed.
+
+Lemma Rinv_run evs : forall sm, Rinv sm -> Rinv (rrun sm evs).
+Proof.
+  induction evs as [|e t IH]; intros sm H; [exact H|]. cbn [rrun fold_left]. apply IH, Rinv_step, H.
+Qed.
+
+(* the refined system projects onto the abstract one *)
+Lemma rstep_fst sm e : fst (rstep sm e) = run (fst sm) (abs_events [e]).
+Proof.
+  destruct sm as [s m]. destruct e as [e | k | k | ]; cbn [rstep abs_events flat_map app run fold_left fst]; try reflexivity.
+  destruct e as [h' dup | h' | h' | bs | ]; try reflexivity.
+  destruct (take_all bs (packer s)) eqn:T; cbn [fst]; [reflexivity|]. cbn [step]. rewrite T. reflexivity.
+Qed.
+
+Lemma rrun_fst evs : forall sm, fst (rrun sm evs) = run (fst sm) (abs_events evs).
+Proof.
+  induction evs as [|e t IH]; intros sm; [reflexivity|]. cbn [rrun fold_left]. fold (rrun (rstep sm e) t).
+  rewrite IH, rstep_fst.
+  assert (E : abs_events (e :: t) = abs_events [e] ++ abs_events t)
+    by (unfold abs_events; cbn [flat_map]; rewrite app_nil_r; reflexivity).
+  rewrite E. unfold run. rewrite fold_left_app. reflexivity.
+Qed.
+
+Lemma rknown_known sm h : Rinv sm -> rknown sm h = known (fst sm) h.
+Proof. intros H. unfold rknown, known. rewrite (mem_of_cnt h _ _ (eq_sym (H h))). reflexivity. Qed.
+
+(* every index life-cycle transition (finalize, upload finished, merge) leaves "known" unchanged *)
+Lemma index_transitions_preserve_known sm e h :
+  (exists k, e = RFinalize k) \/ (exists k, e = RSaved k) \/ e = RMerge ->
+  rknown (rstep sm e) h = rknown sm h.
+Proof.
+  destruct sm as [s m]. intros [[k ->] | [[k ->] | ->]]; unfold rknown; cbn [rstep fst snd]; f_equal.
+  - unfold finalize_at. rewrite flat_set_state. reflexivity.
+  - unfold saved_at. rewrite flat_set_state. reflexivity.
+  - apply mem_of_cnt, cnt_merge_final.
+Qed.
+
+(* the theorems of the abstract system hold for what AddPending really consults *)
+Lemma refined_accepted_always_known idx0 evs h : no_clear (abs_events evs) ->
+  let sm := rrun (rinit idx0) evs in
+  (1 <= U h (res (fst sm)) \/ 1 <= cnt h (packer (fst sm)) \/ 1 <= firsts h (log (fst sm))) ->
+  rknown sm h = true.
+Proof.
+  intros Hn sm H. rewrite rknown_known by (apply Rinv_run, Rinv_init).
+  unfold sm in *. rewrite rrun_fst in *. cbn [rinit fst] in *.
+  apply (accepted_always_known idx0 (abs_events evs) h Hn). cbn zeta. tauto.
+Qed.
+
+Lemma refined_store_once idx0 evs h : no_clear (abs_events evs) ->
+  firsts h (log (fst (rrun (rinit idx0) evs))) <= 1.
+Proof. intros Hn. rewrite rrun_fst. cbn [rinit fst]. apply store_once, Hn. Qed.
+
+(* a merge that drops final indexes whose upload is still in flight loses knowledge: blob 7 was stored,
+   its pack indexed, the index finalized (upload in flight), then another pack triggers the merge *)
+Lemma merge_must_keep_unsaved :
+  let m := [(IFinalSaved, []); (IFinalNoId, [7%N]); (IOpen, [8%N])] in
+  mem 7%N (flat (merge_final m)) = true /\ mem 7%N (flat (merge_final_dropping_unsaved m)) = false.
+Proof. vm_compute. split; reflexivity. Qed.
+
 (* every request of a run is recorded: calls = number of EAdd events *)
 Lemma calls_run evs : forall s h,
   calls h (res (run s evs)) = calls h (res s) + length (filter (fun e => match e with EAdd h' _ => N.eqb h h' | _ => false end) evs).
